@@ -249,6 +249,26 @@ func scriptCfgTrunc(rn *Runner) {
 		c.Net.Heal()
 		time.Sleep(2 * rn.el())
 	}
+	// L and F each with one other server only: half of an even number of voters is no majority, whatever
+	// configuration L or F still carry in memory from the entry they had to truncate (C05)
+	for _, X := range []*Node{L, F} {
+		var Y *Node
+		for _, nd := range c.Nodes {
+			if nd != L && nd != F && nd.Cur() != nil {
+				Y = nd
+			}
+		}
+		if Y == nil || X.Cur() == nil {
+			continue
+		}
+		rn.cutGroups(map[*Node]bool{X: true, Y: true})
+		if w := rn.waitLeader(map[*Node]bool{X: true, Y: true}, 8); w != nil {
+			rn.applyBurst(w, 2, "half")
+		}
+		time.Sleep(3 * rn.el())
+		c.Net.Heal()
+		time.Sleep(3 * rn.el())
+	}
 }
 
 // scriptSnapCfg (C10, C11): snapshots are requested while membership changes
